@@ -66,6 +66,8 @@ def rule(s):
             return S("Token values come from Tokenizer::token(): data is Some for Text/Comment/Doctype tokens (text() returns Some), attribute key and value are Some (tag_attr returns both or neither); a hand-built Token with pub fields set to None would panic in Display. Exercised through token().to_string() on arbitrary bytes")
         if k == "recurse":
             return S("script-data states call each other once per input byte: stack depth grows with the length of a <script> body unless the optimiser turns the tail calls into jumps (it does at opt-level >= 1 for these fns; a debug build overflows the stack near 1 MB of script: DESIGN 6, item 13). A stack overflow aborts the process and cannot be caught: it would show as a crashed harness. The model bounds the recursion by fuel (C16)")
+        if k == "loop" and fn != "Tokenizer::token":
+            return ("lemma", "tokenizer loop, modelled on fuel in RIO.HtmlTok; C07_tokenizer_total excludes OutOfFuel with fuel |input| + 1, i.e. the modelled loop terminates", {"lemma": "C07_tokenizer_total"})
         if k == "loop":
             return S("tokenizer loop: every iteration consumes a byte through read_byte or ends on EOF (self.err); modelled with fuel in RIO.HtmlTok, fuel exhaustion never observed in the C16 correspondence; no totality theorem in the tree yet")
         if k == "range" and "self.attribute[..0]" in t:
@@ -76,6 +78,8 @@ def rule(s):
             return G("attr is a [Span; 2]", "constant index 0 or 1 into a [Span; 2]")
         if k == "sub" and re.search(r"b'a' - b'A'", t) and not re.search(r"\]\s*-\s*\(", t) and "raw.end" not in t:
             return G("constant expression b'a' - b'A' = 32", "both operands are literals")
+        if fn != "Tokenizer::token" and k in ("index", "range", "sub"):
+            return ("lemma", "checked site of the executable model RIO.HtmlTok; RIO.HtmlTokProofs.total (C16_total, restated as C07_tokenizer_total): the driver over next and every accessor never reports Panic / OutOfFuel, for every input; model tied to the crate by the C16 correspondence run", {"lemma": "C07_tokenizer_total"})
         return S("checked site of the executable model RIO.HtmlTok (site table at the top of coq/theories/HtmlTok.v: every index, slice and unsigned subtraction of impl Tokenizer sets the sticky panic flag when it would fail); the C16 correspondence compares model and crate on every short string over the markup alphabet and thousands of random ones and has never seen the flag; a totality THEOREM (C16_total) is not in the tree yet, so this site is covered by testing only. " + (WRAP if k == "sub" else ""))
 
     # ---------------------------------------------------------------- HTML body filters
